@@ -54,11 +54,14 @@ struct SetCase {
 
 pub fn run(tier: Tier) -> i32 {
     let rep = Report::new("C10", tier, "model_checking");
-    rep.set_rule("SCOPE: voice sets {V0; V0+P1; V0+P1+P2; V0+P1+P2+P3; V0+V0; generated pairs/triples with different trees} x weight vectors on the quarter-step simplex lattice incl. vertices and components in [-1/4,3/2] x which of the 1+2*streams quantities (duration, parameter[i], gv[i]) deviate from equal weights (<= 2 at a time, the second with the reversed vector) x labels (cover set Lambda + corpus windows); oracle: Models::duration / model_stream(i).stream / .gv equal sum_v w_v x that voice's own Model::get_parameter (rel 1e-12 incl. voicing weight); weights (1,0,..) reproduce the single-voice parameters and waveform bit-exactly; identical voices reproduce the single voice (parameters 1e-12, waveform 1e-6 of peak); distinct = (voice set, weight vector, deviating quantities); non-trivial = more than one voice");
+    rep.set_rule("SCOPE: voice sets {V0; V0+P1; V0+P1+P2; V0+P1+P2+P3; V0+V0; generated pairs/triples with different trees incl. coarse-then-fine and fine-then-coarse orders} x weight vectors on the quarter-step simplex lattice incl. vertices and components in [-1/4,3/2] x which of the 1+2*streams quantities (duration, parameter[i], gv[i]) deviate from equal weights (<= 2 at a time, the second with the reversed vector) x labels (cover set Lambda + corpus windows); oracle: Models::duration / model_stream(i).stream / .gv equal sum_v w_v x that voice's own Model::get_parameter (rel 1e-12 incl. voicing weight); weights (1,0,..) reproduce the single-voice parameters and waveform bit-exactly; identical voices reproduce the single voice (parameters 1e-12, waveform 1e-6 of peak); distinct = (voice set, weight vector, deviating quantities); non-trivial = more than one voice");
     rep.assume("weights on the quarter-step lattice; each voice's own tree selection is taken from Model::get_parameter (validated against the independent reader by C04)");
     let corpus = labels::corpus();
     let lam = labels::lambda(&corpus);
     let mut label_sets: Vec<Vec<String>> = lam.iter().take(tier.pick(12, 33)).map(|l| vec![l.clone()]).collect();
+    // longer utterances: several labels that share a leaf in one voice's tree but not in another's
+    label_sets.push(corpus[100..108].to_vec());
+    label_sets.push(lam.iter().take(10).cloned().collect());
     label_sets.push(corpus[40..43].to_vec());
     label_sets.push(corpus[700..703].to_vec());
     let mut sets: Vec<SetCase> = Vec::new();
@@ -70,6 +73,16 @@ pub fn run(tier: Tier) -> i32 {
     for (cfg, nv) in [(GenCfg { gv: true, nstate: 3, ..GenCfg::default() }, 2usize), (GenCfg { gv: true, ns: 2, stage: 2, order: 5, nstate: 2, ..GenCfg::default() }, 3)] {
         let voices: Vec<Arc<Voice>> = (0..nv).map(|v| Arc::new(load_voice_bytes(&GenCfg { variant: v as u32, ..cfg.clone() }.bytes()).expect("generated voice"))).collect();
         sets.push(SetCase { name: format!("{} x{} variants", cfg.describe(), nv), voices, nstream: cfg.ns, nstate: cfg.nstate, identical: false });
+    }
+    // coarse (single-leaf trees) voice first, finer voices after it, and the reverse order
+    {
+        let base = GenCfg { gv: true, nstate: 2, ..GenCfg::default() };
+        let coarse = Arc::new(load_voice_bytes(&GenCfg { tree: 0, ..base.clone() }.bytes()).expect("generated voice"));
+        let fine0 = Arc::new(load_voice_bytes(&GenCfg { tree: 1, variant: 0, ..base.clone() }.bytes()).expect("generated voice"));
+        let fine1 = Arc::new(load_voice_bytes(&GenCfg { tree: 1, variant: 1, ..base.clone() }.bytes()).expect("generated voice"));
+        sets.push(SetCase { name: "G coarse + fine".into(), voices: vec![coarse.clone(), fine0.clone()], nstream: 3, nstate: 2, identical: false });
+        sets.push(SetCase { name: "G fine + coarse".into(), voices: vec![fine0.clone(), coarse.clone()], nstream: 3, nstate: 2, identical: false });
+        sets.push(SetCase { name: "G coarse + fine(other questions) + fine".into(), voices: vec![coarse, fine1, fine0], nstream: 3, nstate: 2, identical: false });
     }
     let worst = Mutex::new(0.0f64);
     let nontriv = AtomicU64::new(0);
